@@ -4,7 +4,7 @@
   yash-fnmatch/src/ast/regex.rs on every run, so editing either constant re-checks (and can break)
   `meta_subset`, `escape_roundtrip` and `toRegex_correct`.
 -/
-import YashModel.Fnmatch.ShellLemmas
+import YashModel.Fnmatch.ErrorLemmas
 import YashModel.Fnmatch.TableLemmas
 
 namespace YashModel.Fnmatch
@@ -561,5 +561,217 @@ theorem scanClose_first (d : Char) (cs v r : List PatternChar) :
 /-- non-vacuity: in `a\.].]x` the quoted `.` does not end the value: value `a.]`, rest `x` -/
 example : scanClose '.' [.normal 'a', .literal '.', .normal ']', .normal '.', .normal ']', .normal 'x']
     = some ([.normal 'a', .literal '.', .normal ']'], [.normal 'x']) := by decide
+
+/-! ## ★ wave 2: compile ⇔ defined; the regex model is textbook leftmost-first semantics -/
+
+/-- ★ A syntax tree compiles — under whatever configuration — EXACTLY when it is inside the defined notation
+    (non-empty brackets, defined class names, no class as range bound, no empty symbol, no inverted range).  So
+    "the pattern is outside the defined notation" and "`Pattern::parse_with_config` returns an error" are the same
+    thing, for every pattern-character string (through the grammar `specParse`), and then the trim is a no-op and
+    `case` skips the alternative.  (What C01 needs to compose: undefined ⇒ error ⇒ value unchanged.) -/
+theorem compiles_iff_defined (ast : Ast) (cfg : Config) :
+    ((∃ p, Pattern.fromAst ast cfg = .ok p) ↔ astDefined ast = true) ∧
+    (astDefined ast = false → ∃ e, Pattern.fromAst ast cfg = .error e) :=
+  ⟨Proofs.compiles_iff_defined ast cfg, Proofs.undefined_error ast cfg⟩
+
+theorem undefined_pattern_is_error (pcs : List PatternChar) (h : astDefined (specParse pcs) = false) :
+    (∀ cfg, ∃ e, Pattern.parse pcs cfg = .error e) ∧
+    (∀ side len v, trimApply side len pcs v = v) ∧
+    (∀ subj rest, itemMatches subj (pcs :: rest) = itemMatches subj rest) := by
+  rw [← (parser_is_grammar pcs).2] at h
+  have herr : ∀ cfg, ∃ e, Pattern.parse pcs cfg = .error e := fun cfg => Proofs.undefined_error _ cfg h
+  refine ⟨herr, ?_, ?_⟩
+  · intro side len v
+    obtain ⟨e, he⟩ := herr (trimConfig side len)
+    simp [trimApply, he]
+  · intro subj rest
+    obtain ⟨e, he⟩ := herr caseConfig
+    simp [itemMatches, he]
+
+/-- non-vacuity: `[[:foo:]]`, `[b-a]`, `[[..]]x` (as pattern characters, through the grammar) are outside the
+    defined notation; the tree with an empty bracket (only buildable through `from_ast`) too -/
+example :
+    astDefined [.bracket ⟨false, [.atom (.cls "foo".toList)]⟩] = false ∧
+    astDefined [.bracket ⟨false, [.range (.char 'b') (.char 'a')]⟩] = false ∧
+    astDefined [.bracket ⟨true, [.atom (.collating [])]⟩, .char 'x'] = false ∧
+    astDefined [.bracket ⟨false, []⟩] = false := by decide
+
+/-- ★ The regex-crate model IS textbook semantics on the fragment `to_regex` emits.  (1) What `to_regex` emits
+    parses to anchors only at the two ends around an anchor-free body (`cfgRe` of the compiled atoms).  (2) The
+    backtracking matcher returns the FIRST entry of the priority-ordered enumeration `reEnum` (greedy `.*`: longest
+    continuation first, lazy: shortest first; alternatives in the order written) — the definition of leftmost-first
+    semantics.  (3) That enumeration lists exactly the rests of the order-free denotation `reDenotes` (clause by
+    clause: `.` one character, `.*` any suffix, a class one member, `(?:…|…)` some branch, `\A` / `\z` the two
+    ends), whatever the greed; hence the matcher is sound and complete for the denotation — for EVERY regex of the
+    fragment, anchors anywhere.  (4) `find_at` returns the leftmost start at which the denotation is non-empty. -/
+theorem regex_model_is_textbook (g : Bool) (n : Nat) (re : List ReAtom) (s : List Char) :
+    matchHere g n re s = (reEnum g n re s).head? ∧
+    (∀ ρ, ρ ∈ reEnum g n re s ↔ reDenotes n re s ρ) ∧
+    (∀ ρ, matchHere g n re s = some ρ → reDenotes n re s ρ) ∧
+    (∀ ρ, reDenotes n re s ρ → (matchHere g n re s).isSome = true) :=
+  ⟨Proofs.matchHere_head g n re s, Proofs.mem_reEnum g n re s, Proofs.matchHere_sound g n re s,
+   Proofs.matchHere_complete g n re s⟩
+
+theorem emitted_fragment (ast : Ast) (cfg : Config) (r : List Char) (h : toRegex ast cfg = .ok r)
+    (re : List ReAtom) (hp : parseRe r = some re) :
+    ∃ res, cAtoms ast = some res ∧ re = cfgRe cfg.anchorBegin cfg.anchorEnd res ∧ res.all noAnchor = true := by
+  rw [toRegex_parse ast cfg r h] at hp
+  cases hc : cAtoms ast with
+  | none => simp [hc] at hp
+  | some res =>
+    simp [hc] at hp
+    refine ⟨res, rfl, ?_, cAtoms_noAnchor ast res hc⟩
+    rw [← hp]; unfold cfgRe; rw [List.append_assoc]
+
+theorem findAt_is_leftmost (g : Bool) (re : List ReAtom) (text : List Char) (a0 : Nat) (h0 : a0 ≤ text.length) :
+    match findAt g re text a0 with
+    | none => ∀ i, a0 ≤ i → i ≤ text.length → ∀ ρ, ¬ reDenotes text.length re (text.drop i) ρ
+    | some (a, e) => a0 ≤ a ∧ a ≤ text.length ∧
+        (∃ ρ, (reEnum g text.length re (text.drop a)).head? = some ρ ∧ e = text.length - ρ.length) ∧
+        ∀ i, a0 ≤ i → i < a → ∀ ρ, ¬ reDenotes text.length re (text.drop i) ρ :=
+  Proofs.findAt_is_leftmost g re text a0 h0
+
+/-- non-vacuity: `(?:ab|[a]).*\z` on `abc`: greedy and lazy take the first branch first; the enumeration of the
+    anchored regex has one entry per branch that can be completed -/
+example :
+    let re : List ReAtom := [.alt [[.lit 'a', .lit 'b'], [.cls ⟨false, [.single 'a']⟩]], .star, .eos]
+    reEnum true 3 re "abc".toList = [[], []] ∧ matchHere false 3 re "abc".toList = some [] ∧
+    reEnum true 3 [.alt [[.lit 'a', .lit 'b'], [.cls ⟨false, [.single 'a']⟩]], .star] "abc".toList
+      = [[], ['c'], [], ['c'], ['b', 'c']] := by decide
+
+/-- ★ The whole loop of `case.rs execute`, exit status included (`falling_through`, `exit_status_updated`, the final
+    "`if !exit_status_updated { $? = 0 }`"): the bodies run are those of `caseExec` (hence, by `caseExec_spec`, the
+    Spec's), and `$?` afterwards is XCU 2.9.4.3's: zero if no body ran, zero if the LAST body run is empty, otherwise
+    what running those bodies in order leaves — whatever `$?` was on entry and whatever the bodies do to it.  (Was:
+    a hand-written `caseStatus` in the driver, compared in the run only.) -/
+theorem caseExecute_spec (items : List CaseItemM) (subj : List Char) (st0 : Nat) :
+    (caseExecute items subj st0).1 = caseExec (items.map fun it => (it.alts, it.cont)) subj ∧
+    (caseExecute items subj st0).2 =
+      specCaseStatus (items.map (·.body)) (items.map (·.bodyEmpty)) st0
+        (caseExec (items.map fun it => (it.alts, it.cont)) subj) :=
+  Proofs.caseExecute_spec items subj st0
+
+/-- non-vacuity: `case a in (a) st 5 ;& (b) ;; (*) echo ;; esac` entered with `$?` = 7: bodies 0 and 1 run, the
+    last one is empty, so `$?` = 0; with `;;&` instead of `;&` bodies 0 and 2 run and `$?` is what `echo` leaves -/
+example :
+    let a : List PatternChar := [.normal 'a']
+    let b : List PatternChar := [.normal 'b']
+    let star : List PatternChar := [.normal '*']
+    caseExecute [⟨[a], .fallThrough, false, fun _ => 5⟩, ⟨[b], .brk, true, id⟩, ⟨[star], .brk, false, fun _ => 0⟩]
+      ['a'] 7 = ([0, 1], 0) ∧
+    caseExecute [⟨[a], .cont, false, fun _ => 5⟩, ⟨[b], .brk, true, id⟩, ⟨[star], .brk, false, fun s => s + 1⟩]
+      ['a'] 7 = ([0, 2], 6) := by
+  refine ⟨?_, ?_⟩ <;> simp [caseExecute, caseExecuteGo, itemMatches, Pattern.parse, parseAtoms, PatternChar.charValue] <;> decide
+
+/-- ★ Where `literal_period` can be observed at all: the table of every function of /repo (outside the crate) that
+    sets it, with ALL the flags it sets, is re-extracted on every run; each such configuration has both anchors, so
+    `literal_period_correct` applies to it on both paths — in particular the literal fast path, which does not look
+    at `literal_period`, cannot be told apart there (`text == s` with a leading period in `text` forces one in `s`).
+    The one place where the fast path differs from the regex path (no anchor: the empty pattern finds `0..0` in `.x`,
+    the regex path would search from index 1) is not a reachable configuration. -/
+theorem literal_period_reachable :
+    (∀ e ∈ Generated.FnmatchConfig.literalPeriodConfigs,
+      (cfgOfFlags e.2).anchorBegin = true ∧ (cfgOfFlags e.2).anchorEnd = true ∧
+      (cfgOfFlags e.2).literalPeriod = true ∧ ∀ f ∈ e.2, f ∈ modelledFlags) ∧
+    (∀ e ∈ Generated.FnmatchConfig.literalPeriodConfigs, ∀ ast p,
+      Pattern.fromAst ast (cfgOfFlags e.2) = .ok p → ∀ s, p.isMatch s = specPeriodMatch ast s) := by
+  have h1 : ∀ e ∈ Generated.FnmatchConfig.literalPeriodConfigs,
+      (cfgOfFlags e.2).anchorBegin = true ∧ (cfgOfFlags e.2).anchorEnd = true ∧
+      (cfgOfFlags e.2).literalPeriod = true ∧ ∀ f ∈ e.2, f ∈ modelledFlags := by decide
+  refine ⟨h1, ?_⟩
+  intro e he ast p hp s
+  obtain ⟨hb, hE, hl, _⟩ := h1 e he
+  exact literal_period_correct ast _ hb hE hl p hp s
+
+/-- the table is not empty (glob's `to_pattern`), and the unreachable difference is real -/
+example :
+    Generated.FnmatchConfig.literalPeriodConfigs.length = 1 ∧
+    (match Pattern.fromAst [] { literalPeriod := true }, Pattern.fromAst [.anyString] { literalPeriod := true, shortest := true } with
+     | .ok p, .ok q => some (p.find ".x".toList, q.find ".x".toList)
+     | _, _ => none) = some (some (0, 0), some (1, 1)) := by decide
+
+/-- ★ `trim::apply` end to end for the pattern word `"$q"$p` (after expansion): escapes applied, configuration chosen
+    by side and length, pattern parsed, value trimmed — scalar or every array element.  With `pcs` the pattern
+    characters the Spec assigns to the word (`q` literal, then `p` with backslash escapes): outside the defined
+    notation the value is unchanged; inside it the result is the Spec's shortest / longest prefix / suffix removal —
+    on the suffix side for every pattern, on the prefix side without multi-character collating elements. -/
+theorem trimApplyValue_correct (q p : List Char) (side : TrimSide) (len : TrimLength) (value : Value) :
+    (astDefined (specParse (q.map PatternChar.literal ++ escapeChars p)) = false →
+      trimApplyValue side len (shellWord q p) value = value) ∧
+    (astDefined (specParse (q.map PatternChar.literal ++ escapeChars p)) = true →
+      (side = .suffix ∨ noMulti (specParse (q.map PatternChar.literal ++ escapeChars p)) = true) →
+      trimApplyValue side len (shellWord q p) value =
+        value.map (specTrim side len (specParse (q.map PatternChar.literal ++ escapeChars p)))) := by
+  have hg := (parser_is_grammar (q.map PatternChar.literal ++ escapeChars p)).2
+  obtain ⟨hs, ha⟩ := Proofs.trimApplyValue_eq side len (shellWord q p)
+  simp only [shell_word_chars] at hs ha
+  constructor
+  · intro hu
+    have hno := (undefined_pattern_is_error _ hu).2.1 side len
+    cases value with
+    | scalar v => rw [hs, hno]
+    | array vs =>
+      rw [ha]; unfold trimArray
+      rw [List.map_congr_left (fun v _ => hno v)]; simp
+  · intro hd hside
+    rw [← hg] at hd hside ⊢
+    have hone : ∀ v, trimApply side len (q.map PatternChar.literal ++ escapeChars p) v =
+        specTrim side len (parseAtoms (q.map PatternChar.literal ++ escapeChars p)) v := by
+      intro v
+      rcases hside with rfl | hn
+      · exact trimApply_suffix_correct _ hd len v
+      · exact trimApply_correct _ hd hn side len v
+    cases value with
+    | scalar v => rw [hs, hone]; rfl
+    | array vs =>
+      rw [ha]; unfold trimArray
+      rw [List.map_congr_left (fun v _ => hone v)]; rfl
+
+/-- non-vacuity: the word `"*"\*` — a quoted star then an escaped star: the pattern is the two literal characters `**` -/
+example : (List.map PatternChar.literal ['*'] ++ escapeChars ['\\', '*']) = [.literal '*', .literal '*'] := by
+  decide
+
+/-- ★ WHICH end `find` takes at its (leftmost) start, for EVERY configuration — completing `find_leftmost`: for a
+    pattern without multi-character collating elements the end is the greatest one any occurrence at that start has
+    when greedy, and the least one under `shortest_match` (regex path: greedy / `swap_greed` star; literal path and
+    `anchor_end`: there is only one).  `find_is_extremal` was this for the four trim configurations only.  With
+    multi-character elements the alternation order decides instead (example below: `[a[.ab.]]` greedy finds `0..1`
+    in `ab` although `0..2` is an occurrence). -/
+theorem find_end_extremal (ast : Ast) (hn : noMulti ast = true) (cfg : Config) (p : Pattern)
+    (h : Pattern.fromAst ast cfg = .ok p) (s : List Char) (a e : Nat) (hf : p.find s = some (a, e)) :
+    ∀ j, occurs cfg.anchorBegin cfg.anchorEnd ast s a j → if cfg.shortest then e ≤ j else j ≤ e :=
+  Proofs.find_end_extremal ast hn cfg p h s a e hf
+
+/-- non-vacuity: `a*` unanchored on `xaab`: greedy `1..4`, lazy `1..2`; and the hypothesis is necessary -/
+example :
+    (match Pattern.fromAst [.char 'a', .anyString] {}, Pattern.fromAst [.char 'a', .anyString] { shortest := true } with
+     | .ok p, .ok q => some (p.find "xaab".toList, q.find "xaab".toList)
+     | _, _ => none) = some (some (1, 4), some (1, 2)) ∧
+    (let ast : Ast := [.bracket ⟨false, [.atom (.char 'a'), .atom (.collating ['a', 'b'])]⟩]
+     noMulti ast = false ∧
+     (match Pattern.fromAst ast {} with
+      | .ok p => some (p.find "ab".toList)
+      | .error _ => none) = some (some (0, 1)) ∧ occursB false false ast "ab".toList 0 2 = true) := by decide
+
+/-- ★ The error class `RegexError` has exactly one source: a range whose end lies before its start.  Everything else
+    outside the defined notation (empty bracket, empty symbol, undefined class, class as range bound) is refused by
+    the translation itself with its own error class, and a text the translation does emit can fail in the regex
+    compiler ONLY because of an inverted range — in particular never because a special character was left
+    unescaped.  (The harness checks the same on the real crate: every `RegexError` observed must carry the regex
+    crate's "invalid character class range" complaint, anything else is reported as its own class.) -/
+theorem regex_error_is_inverted_range (ast : Ast) (cfg : Config) (h : Pattern.fromAst ast cfg = .error .regex) :
+    hasInvertedRange ast = true ∧ astDefined ast = false := by
+  refine ⟨Proofs.regex_error_inverted ast cfg h, ?_⟩
+  cases hd : astDefined ast with
+  | false => rfl
+  | true =>
+    obtain ⟨p, hp⟩ := defined_compiles ast hd cfg
+    rw [hp] at h; cases h
+
+/-- non-vacuity: `[z-a]` and `[![.ch.]b-a]` (complement with a multi-character element) give the class `regex` -/
+example :
+    [Pattern.fromAst [.bracket ⟨false, [.range (.char 'z') (.char 'a')]⟩] caseConfig,
+     Pattern.fromAst [.bracket ⟨true, [.atom (.collating ['c', 'h']), .range (.char 'b') (.char 'a')]⟩] caseConfig].map
+      (fun r => match r with | .error e => some e | .ok _ => none) = [some .regex, some .regex] := by decide
 
 end YashModel.Fnmatch
